@@ -442,7 +442,8 @@ LEVEL_TEXT = ('Machine-checked proof (Coq 8.16.1) that on the C01 expression gra
               'witnesses (MySQL `/` and length(), PostgreSQL least / greatest, NOT coalesce(x, true), CASE / coalesce over boolean and integer). The translation model and a '
               'text-rendering model of the four builders are compared with the real translator / builders on every run. The agreement is also proved for queries with '
               'attribute paths through to-one references (C02_agree_join_rows) and with conditions over a to-many collection - EXISTS / IN / NOT IN / COUNT subqueries '
-              '(C02_agree_collection_rows); their FROM / subquery models are tied structurally on the four providers by check C01.')
+              '(C02_agree_collection_rows) and for aggregates as whole-query results (C02_agree_aggregate, except PostgreSQL\'s missing sum / avg of a boolean, refuted); their '
+              'FROM / subquery / aggregate models are tied structurally on the four providers by check C01.')
 LEVEL_NOTE = ('Partial: nothing executes on PostgreSQL / MySQL / MariaDB / Oracle here - their semantics are documentation models (trusted); SQLite is validated against the '
               'linked library. Oracle and the JSON / array / date operators are covered at most at text level; collations are assumed binary.')
 TECHNIQUE = 'Coq corollary of the C01 induction proof over per-dialect evaluators; vm_compute structural + text correspondence on four providers; model-level differential search'
